@@ -4,6 +4,7 @@ _marshaled_single_dispatch, _unmarshaled_dispatch, _marshaled_dispatch.
 The specification of one entry (`wellformed`, `usable_id`, `is_notification`, `form`, the code table) is
 written from the property statements (DESIGN Appendix A), not from the code."""
 import z3
+from pyvc.solve import forall_pat
 from pyvc import vals as V
 from pyvc.vals import Val
 from pyvc import ops
@@ -481,13 +482,13 @@ def _batch_inv(L):
     cfg = L.field0(d, "json_config")
     return z3.And(
         V.is_list(resp), Val.llen(resp) == answered(req, i), Val.llen(resp) >= 0,
-        z3.ForAll([j], z3.Implies(z3.And(j >= 0, j < Val.llen(resp)), wf_response(z3.Select(Val.lat(resp), j))),
-                  patterns=[z3.Select(Val.lat(resp), j)]),
-        z3.ForAll([k], z3.Implies(z3.And(k >= 0, k < i, z3.Not(unanswered(z3.Select(Val.lat(req), k)))),
+        forall_pat([j], z3.Implies(z3.And(j >= 0, j < Val.llen(resp)), wf_response(z3.Select(Val.lat(resp), j))),
+                  [z3.Select(Val.lat(resp), j)]),
+        forall_pat([k], z3.Implies(z3.And(k >= 0, k < i, z3.Not(unanswered(z3.Select(Val.lat(req), k)))),
                                   z3.And(answered(req, k) >= 0, answered(req, k) < Val.llen(resp),
                                          get(z3.Select(Val.lat(resp), answered(req, k)), "id") ==
                                          usable_id(z3.Select(Val.lat(req), k)))),
-                  patterns=[answered(req, k)]),
+                  [answered(req, k)]),
         # C13: the server's configuration object is never written while serving
         *[L.field(cfg, f) == L.field0(cfg, f) for f in _CFG_FIELDS] +
         # the dispatcher (with its notification pool) stays well formed from one entry to the next
@@ -507,11 +508,11 @@ def _um_batch_post(c):
     return z3.And(
         implies(c.returns, z3.And(
             V.is_list(r), Val.llen(r) >= 1, Val.llen(r) == answered(req, n),
-            z3.ForAll([j], z3.Implies(z3.And(j >= 0, j < Val.llen(r)), wf_response(z3.Select(Val.lat(r), j))),
-                      patterns=[z3.Select(Val.lat(r), j)]),
-            z3.ForAll([k], z3.Implies(z3.And(k >= 0, k < n, z3.Not(unanswered(z3.Select(Val.lat(req), k)))),
+            forall_pat([j], z3.Implies(z3.And(j >= 0, j < Val.llen(r)), wf_response(z3.Select(Val.lat(r), j))),
+                      [z3.Select(Val.lat(r), j)]),
+            forall_pat([k], z3.Implies(z3.And(k >= 0, k < n, z3.Not(unanswered(z3.Select(Val.lat(req), k)))),
                                       get(z3.Select(Val.lat(r), answered(req, k)), "id") == usable_id(z3.Select(Val.lat(req), k))),
-                      patterns=[answered(req, k)]))),
+                      [answered(req, k)]))),
         implies(c.raised, z3.And(c.raises_exactly(S.NoMulticallResult), answered(req, n) == 0)))
 
 
